@@ -238,6 +238,12 @@ fn rule_cases() -> Vec<Case> {
     // variables
     add("variables are uniquely named", "query Q($a: Int, $a: Int) { x }", false);
     add("variables are uniquely named", "query Q($a: Int, $b: Int) { x }", true);
+    // a repeated name is a duplicate whatever the two declared types are (seeded change C03-11 keyed the seen list by name AND type)
+    add("variables are uniquely named", "query Q($a: Int, $a: String) { x }", false);
+    add("variables are uniquely named", "query Q($a: Int, $a: [Int!]!) { x }", false);
+    add("variables are uniquely named", "query Q($a: Int, $b: String, $a: ID) { x }", false);
+    add("variables are uniquely named", "query Q($a: Int, $b: Int, $b: Boolean, $c: Int) { arg(req: 1, opt: $a) }", false);
+    add("variables are uniquely named", "query Q($a: Int, $b: String, $c: ID, $d: Int) { x }", true);
     add("variables are of input types", "query Q($a: K) { x }", false);
     add("variables are of input types", "query Q($a: [U!]) { x }", false);
     add("variables are of input types", "query Q($a: Nope) { x }", false);
